@@ -118,7 +118,8 @@ def check_out(outpath, main_src, packages, res, case, sigtail):
                       case)
         return False
     if packages:
-        if find_sub(R, toks(b'function require')) < 0 or find_sub(R, toks(b'package=')) < 0:
+        # only presence is required (the statement does not fix the loader's text)
+        if ('name', b'require') not in R or ('name', b'package') not in R:
             res.violation('C14|loader-missing|%s' % sigtail, 'loader (function require / package table) missing in %r' % (
                 code[:300],), case)
             return False
@@ -282,6 +283,11 @@ def path_cases():
         ('string-call', {'p.lua': b'a=1\n'}, b'require "p"\nz=1\n', [], None, {b'p': 'p.lua'}),
         ('init-path', {'m/init.lua': b'a=1\n'}, b'require("m")\nz=1\n', ['--lua-path', '?.lua;?/init.lua'], None,
          {b'm': 'm/init.lua'}),
+        # a directory named like a package next to the package file
+        ('dir-named-like-package', {'util.lua': b'u=1\n', 'util/vec.lua': b'v=2\n'},
+         b'require("util")\nrequire("util/vec")\nz=1\n', [], None, {b'util': 'util.lua', b'util/vec': 'util/vec.lua'}),
+        ('dir-named-like-package-loadpath', {'lib/util.lua': b'u=1\n', 'lib/util/vec.lua': b'v=2\n', 'util/x.lua': b'w=3\n'},
+         b'require("util")\nz=1\n', ['--lua-path', 'lib/?;lib/?.lua'], None, {b'util': 'lib/util.lua'}),
     ]
 
 
